@@ -98,6 +98,10 @@ def corpus():
                                   pg.STEP]))
     # stored as <state>y <- 0 (flatten): C03-K2
     add("zero_times_state", pg.P1([["assign", "<state>y", MUL(MUL(C(0), DT), Y), []], pg.STEP, ["yield", Y, "y", T, "final"]]))
+    # constants that Python prints in exponent notation (the Fortran literal must still be double precision)
+    add("exponent_literals", pg.P1([["assign", "<p>s", ADD(MUL(S, C(0.1)), MUL(C(1e-05), DT)), []],
+                                    ["assign", "a", ["/", S, C(2.5e-06)], []],
+                                    ["assign", "<p>s", ADD(MUL(V("a"), C(1e-20)), MUL(MUL(DT, C(1e+20)), C(3e-21))), []], pg.STEP]))
     add("raise_guarded", pg.P1([["assign", "<p>s", ADD(S, C(1)), []],
                                 ["if", ["expr", GT(S, C(2))], [["raise", "ErrA", "too big"]], None], pg.STEP]))
     return progs
@@ -253,7 +257,7 @@ class FGen:
             r = rng.random()
             if r < 0.6:
                 return V(rng.choice(sc))
-            return C(rng.choice([0, 1, 2, -1, 3, 0.5, 2.5]))
+            return C(rng.choice([0, 1, 2, -1, 3, 0.5, 2.5, 0.1, 1e-05, 2.5e-06, 1e+16]))
         op = rng.choice(["+", "+", "*", "*", "/", "pow", "if", "min", "max"])
         a, b = self.scalar(sc, depth - 1), self.scalar(sc, depth - 1)
         if op == "/":
